@@ -253,6 +253,7 @@ def job(arg):
         out = {'name': name, 'arg': arg if arg[0] == 'gen' else ('src', name), 'welldef': r['welldef'], 'ninputs': len(inputs),
                'undef': r['undef'], 'findings': r['findings'], 'broken': r['broken'], 'hash': hashlib.sha1(src).hexdigest()[:16],
                'features': sorted(features(prog)) if r['welldef'] else [], 'src': src.decode('latin-1'), 'inputs': inputs,
+               'capacity_rejected': bool(r.get('capacity_rejected')),
                'spec': r['spec'], 'isa': r['isa'], 'unsupported': [s['detail'] for s in (r['spec'] or []) if s['kind'] == 'undef' and s['reason'] == 'Unsupported']}
         # X reader cross-check (C09's XFront.front, a Coq model of the real lexer+parser, as the reader of the program text):
         # the AST handed to XSem as .sx must be the AST the real parser builds from the text handed to xcmp
@@ -383,7 +384,7 @@ def has_left_call(e):
 def has_call_first_actual(e):
     """a procedure-call statement of h whose first actual contains a call or get"""
     if isinstance(e, tuple):
-        if e[0] == 'call' and e[1] == 'h' and e[2] and (has_call(e[2][0]) or has_get(e[2][0])):
+        if ((e[0] == 'call' and e[1] in ('h', 'put')) or (e[0] == 'sys' and e[1] == 1)) and e[2] and (has_call(e[2][0]) or has_get(e[2][0])):
             return True
         return any(has_call_first_actual(x) for x in e[1:])
     if isinstance(e, list):
@@ -544,6 +545,9 @@ def frag_stmt(rng, depth):
             return ('assign', rng.choice(FRAG_VARS), frag_expr(rng, rng.randint(0, 3), rng.choice(['int', 'int', 'bool'])))
         if r < 0.7:
             e = [frag_expr(rng, rng.randint(0, 2)), rng.choice([('num', 0), ('var', 'g1'), frag_expr(rng, 1)])]
+            if rng.random() < 0.25:
+                # the byte has a call on its left spine, the stream is simple
+                e = [frag_lcall(rng, rng.randint(0, 2)), rng.choice([('num', 0), ('num', 0), ('var', 'g1')])]
             return ('call', 'put', e) if rng.random() < 0.5 else ('sys', 1, e)
         if r < 0.78:
             # a procedure call with call-free actuals (an array in scope as the actual of an array formal)
@@ -964,7 +968,7 @@ def main():
                       'and of array formals with constant or computed index) and statements (skip stop return if while sequence assignment, assignment to an array element a[e1] := e2, exit put, '
                       'and get: console input, 255 at the end of the input; the input consumed is part of the proved behaviour; function calls and get may be the whole right-hand side of an assignment, '
                       'the whole value of a return or the whole condition of an if / while, or stand at the bottom of the LEFT spine of such an expression under + - = < ~ with simple right operands '
-                      '(literals, variables): xcmp computes the left operand first, as XSem does; such an expression may also be the FIRST actual of a procedure-call statement whose other actuals are simple) '
+                      '(literals, variables): xcmp computes the left operand first, as XSem does; such an expression may also be the FIRST actual of a procedure-call statement whose other actuals are simple, or the byte of a put statement with a simple stream) '
                       'of the form the code generator reads (after XConstProp.front), '
                       'the code of the model cg/cs run on Isa.run shows the behaviour XSem gives (C01_expr_fragment_partial, C01_stmt_fragment_partial); '
                       'and for procedure-call statements, and function calls as the whole right-hand side of an assignment or the whole value of a return, '
@@ -985,9 +989,9 @@ def main():
                       'the three peephole rules are proved to preserve the effect of the block they rewrite (C01_peephole_rule1/2/3_partial) and to be all the pass applies (C01_peephole_rewrites); '
                       'global arrays are laid out by model_compile as xcmp does (cells at the top of memory, the name\'s data word holds their address) and, like array formals, are part of '
                       'the end-to-end theorem (the demo passes a global array to a recursive procedure through an array formal); '
-                      'NOT proved: calls (and get) in a right operand, under and / or / unary minus, in subscripts, as actuals other than the first actual of a procedure-call statement, proc/func formals, string literals as array actuals, local arrays (XSem rejects them), shadowing of globals, strings, input from file streams (Unsupported in XSem), '
-                      'source programs outside front_swap_safe (> / <= with two non-constant operands one of which contains a call, constant subexpressions topped by ~= >= > <=, unary minus of a non-constant '
-                      'operand, the call 4294967295(..)), and that the peephole pass preserves behaviour for whole images (the proved image is the lowered one) '
+                      'NOT proved: calls (and get) in a right operand, under and / or / unary minus, in subscripts, as actuals other than the first actual of a procedure-call statement or the byte of a put statement, proc/func formals, string literals as array actuals, local arrays (XSem rejects them), shadowing of globals, strings, input from file streams (Unsupported in XSem), '
+                      'source programs outside front_swap_safe (> / <= whose right operand contains a call or system call while the left one is not a literal-like constant, a string-literal right operand '
+                      'under a left operand with calls, the call 4294967295(..)), and that the peephole pass preserves behaviour for whole images (the proved image is the lowered one) '
                       '-- decided per program by this check']
     if os.path.exists(os.path.join(vlib.COQ, 'Properties_%s.v' % PID)):
         ok = ck.proofs()
@@ -1039,6 +1043,7 @@ def summarise(ck, results, pool, kinds=None):
             for f in r['features']:
                 feats[f] = feats.get(f, 0) + 1
     counts = report(ck, results, pool, kinds)
+    ck.cov['rejected_because_program_and_arrays_exceed_the_memory'] = sorted(r['name'] for r in results if r.get('capacity_rejected'))
     import xfrontcommon
     nx, samex = xfrontcommon.reader_report(ck, results)      # fills coverage['xfront_reader_crosscheck']; a disagreement is a broken tie
     ck.log('X reader cross-check (XFront.front vs Python printer/parser): %d compared, %d matching' % (nx, samex))
